@@ -45,8 +45,8 @@ def c06(chk, opts):
             chk.violation("token text does not parse back to an equal token: %s%s (rt=%s)" % ("".join(ev["body"]), "".join(ev["lit"]), ev["rt"]),
                           {"op": "tok", "text": "".join(ev["body"]) + "".join(ev["lit"])}, {"gen": ["c05"], "event": ev})
     # range half
-    args = ["--family", "rows,partial,random,negzero", "--rows-exhaustive", 8 if thorough else 7, "--rows-samples", 1500 if thorough else 120,
-            "--partial-pairs", 40 if thorough else 6, "--partial-random", 300 if thorough else 60, "--random", 12000 if thorough else 900, "--orders", 2]
+    args = ["--family", "rows,partial,random,big,negzero", "--rows-exhaustive", 8 if thorough else 7, "--rows-samples", 400 if thorough else 120,
+            "--partial-pairs", 14 if thorough else 6, "--partial-random", 200 if thorough else 60, "--random", 3000 if thorough else 900, "--orders", 2]
     trace = _record(chk, args)
     r, events, bad = validate_independent(chk, "TraceFmt", trace, "TraceFmt(C06 round trip)", cfg="TraceFmtC06.cfg", heap="10g", timeout=3000)
     for i in bad:
@@ -74,8 +74,8 @@ def c12(chk, opts):
         tot.generated += r.generated; tot.distinct += r.distinct; tot.cmd = r.cmd
     tot.wall = time.time() - t
     chk.add_tlc(tot, "RangeSplit(probe-then-all = definition, 3^4+3^6+3^12)")
-    args = ["--family", "rows,partial,random", "--reparse", 0, "--rows-exhaustive", 5, "--rows-samples", 200 if thorough else 40,
-            "--partial-pairs", 169 if thorough else 18, "--partial-random", 1500 if thorough else 120, "--random", 8000 if thorough else 800, "--orders", 1]
+    args = ["--family", "rows,partial,random,big", "--reparse", 0, "--rows-exhaustive", 5, "--rows-samples", 100 if thorough else 40,
+            "--partial-pairs", 60 if thorough else 18, "--partial-random", 300 if thorough else 120, "--random", 3000 if thorough else 800, "--orders", 1]
     trace = _record(chk, args)
     r, events, bad = validate_independent(chk, "TraceFmt", trace, "TraceFmt(C12 split)", cfg="TraceFmtC12.cfg", heap="10g", timeout=3000)
     for i in bad:
@@ -85,7 +85,7 @@ def c12(chk, opts):
     for i in (0, 2000, len(events) - 9):
         chk.sample(_brief(json.loads(events[min(i, len(events) - 1)])))
     chk.exhaustive = False
-    return chk.finish(rule="for randomly chosen rank pairs (18 quick / 169 draws thorough): all 729 (pocket) / 81 (suited) patterns and, for offsuit, the <=2-deviation family around "
+    return chk.finish(rule="for randomly chosen rank pairs (18 quick / 60 draws thorough): all 729 (pocket) / 81 (suited) patterns and, for offsuit, the <=2-deviation family around "
                            "'complete' plus random patterns of the 3^12, with neighbours complete or absent; row patterns; random whole ranges; TLC recomputes Complete/Orphans "
                            "from the logged contents and compares rank_pairs() and orphan_card_pairs() with them",
                       extra={"ranges": len(events)})
@@ -102,8 +102,8 @@ def c17(chk, opts):
         raise ToolError("RangeBuild printed %d histories" % len(set(hists)))
     hf = chk.path("histories.ndjson")
     open(hf, "w").write("\n".join(sorted(set(hists), key=lambda h: (len(h), h))) + "\n")
-    args = ["--family", "rows,random,hist", "--histories", hf, "--hist-stride", 1 if thorough else 7, "--rows-exhaustive", 8 if thorough else 6,
-            "--rows-samples", 800 if thorough else 80, "--random", 3000 if thorough else 500, "--orders", 16 if thorough else 6]
+    args = ["--family", "rows,random,big,hist", "--histories", hf, "--hist-stride", 2 if thorough else 7, "--rows-exhaustive", 7 if thorough else 6,
+            "--rows-samples", 300 if thorough else 80, "--random", 600 if thorough else 500, "--orders", 16 if thorough else 6]
     trace = _record(chk, args)
     r, events, bad = validate_independent(chk, "TraceFmt", trace, "TraceFmt(C17 canonical text)", cfg="TraceFmtC17.cfg", heap="12g", timeout=3000)
     drift = sorted(set(int(x) for x in re.findall(r'<<"DRIFT", (\d+)>>', r.raw)))
@@ -115,14 +115,14 @@ def c17(chk, opts):
         m = re.search(r'"same_as":(\d+)', e)
         groups.setdefault(int(m.group(1)), []).append(n + 1)
     multi = sum(1 for g in groups.values() if len(g) > 1)
-    if multi < 200:
-        raise ToolError("vacuity: only %d contents were reached along more than one history" % multi)
     for i in bad:
         ev = json.loads(events[i - 1])
         other = json.loads(events[ev["same_as"] - 1])
         extra = (" ; the same contents printed %r along another history" % other["text"][:120]) if other["text"] != ev["text"] else ""
         chk.violation("text is not the canonical text of its contents: %s (built via %s)%s" % (_brief(ev), ev["via"], extra), _sig(ev),
                       {"gen": ["fmt"] + [str(a) for a in args], "event": ev})
+    if not chk.violations and multi < 200:
+        raise ToolError("vacuity: only %d contents were reached along more than one history" % multi)
     for i in (0, 2500, len(events) - 9):
         chk.sample(_brief(json.loads(events[min(i, len(events) - 1)])))
     chk.exhaustive = False
